@@ -115,7 +115,8 @@ class Session:
                 for v in e.vertices:
                     idx.append([j + 1 for j, w in enumerate(verts) if w is v][0])
                 bound.append(idx)
-        self.emit({'op': 'Construct', 'raised': raised, 'bound': bound}, verts, edges)
+        gidx = [int(v.gradient_index) if v.gradient_index is not None else -1 for v in verts]
+        self.emit({'op': 'Construct', 'raised': raised, 'bound': bound, 'gidx': gidx}, verts, edges)
         return not raised
 
     # ---- queries ----
@@ -217,11 +218,24 @@ class Session:
         except Exception as ex:  # noqa  -- an exception escaping the library is an observation, not a failure of the harness
             g = self.g
             rep = {'numIter': -1, 'converged': False, 'lenResults': -1, 'lastComplete': False, 'rows': -1, 'initialOk': False, 'finalOk': False,
-                   'chi2sOk': False, 'finalIsChi2': False, 'appliedSet': [-1], 'verboseOk': True, 'splitOk': True}
+                   'chi2sOk': False, 'finalIsChi2': False, 'appliedSet': [-1], 'verboseOk': True, 'splitOk': True, 'strRows': -1, 'strHeaderOk': False}
             self.emit({'op': 'OptCall', 'maxIter': int(max_iter), 'fixFirst': bool(fix_first), 'verbose': bool(verbose), 'cls': ['F'] * int(max_iter), 'rep': rep,
                        'raised': True}, g._vertices, g._edges,
                       {'chi2s': [], 'report': {}, 'nan': False, 'was_fixed': [], 'tol': tol, 'isolated_fixed': [], 'exception': repr(ex)})
             return None
+
+    @staticmethod
+    def _str_report(ret):
+        """str(OptimizationResult): one table row per complete iteration; header repeats converged / iterations."""
+        try:
+            lines = str(ret).splitlines()
+            sep = [i for i, ln in enumerate(lines) if ln.startswith('---------')][0]
+            rows = [ln for ln in lines[sep + 1:] if ln.strip()]
+            ok = ('Converged = %s' % ret.converged) in lines and ('Iterations = %s' % ret.num_iterations) in lines
+            ok = ok and all(int(ln.split()[0]) == i + 1 for i, ln in enumerate(rows))
+            return {'strRows': len(rows), 'strHeaderOk': bool(ok)}
+        except Exception:  # noqa
+            return {'strRows': -1, 'strHeaderOk': False}
 
     def _optimize(self, max_iter, fix_first, verbose, tol, split=None, twin=True):
         g = self.g
@@ -266,6 +280,7 @@ class Session:
             'appliedSet': [k for k in range(m + 1) if digs[k] == after] or [-1],
             'verboseOk': True, 'splitOk': True,
         }
+        rep.update(self._str_report(ret))
         detail = {'chi2s': chi2s, 'report': {'initial': ret.initial_chi2, 'final': ret.final_chi2, 'iter_chi2': [ir.chi2 for ir in ret.iteration_results]},
                   'nan': bool(any(np.any(np.isnan(np.asarray(v.pose))) for v in g._vertices)),
                   'was_fixed': was_fixed, 'tol': tol,
